@@ -3,9 +3,21 @@ CHECKS = [
   "text": "Partial. Decides statically, for every input at once, that every scanner loop leaves when the input is exhausted, every parser loop leaves when the token stream is exhausted, and the scanner's end-of-input state graph reaches nil. These are necessary conditions of 'parsing terminates'; the time bound and the absence of runtime-error panics are not decided.",
   "note": "Trusts go/types callee resolution and the tabulated behaviour of unicode.Is*/strings.IndexRune on the constant eof; assumes reads after exhaustion keep yielding terminal tokens (closed channel).",
   "technique": "static analysis: finite-domain abstract evaluation of loop exit predicates (AST + go/types)"},
+ {"id": "C02",
+  "text": "Partial. Decides: push/pop of the renderer's scope is paired on every returning path of every soyhtml function; every command body (the AST fields the parser fills from itemList, derived on each run) is rendered in its own frame; a called template's state is built only from a scope with a renderer-allocated top frame, set() never runs on caller data, and the data=\"all\" view is capacity-capped. These are necessary conditions of block scoping and callee isolation; the rendered text of each command is not decided.",
+  "note": "go/cfg control flow with no-return functions inferred from source; scope API classified structurally (append = push, reslice-by-one = pop).",
+  "technique": "static analysis: typestate / pairing dataflow over go/cfg + parser-derived block table"},
+ {"id": "C08",
+  "text": "Full for the no-write clause. Interprocedural effect analysis: no Store/MapUpdate/append/copy/delete/sort reachable from Renderer.Execute, Tofu.Render, EvalExpr, soyjs.Write or Generator.WriteFile lands in a non-fresh object of a type declared in ast/template/soymsg/pomsg, in a data.Map/data.List, or in a package variable; the one locally undischargeable site (scope.set) is discharged by the scope-frame typestate. Hence a render cannot change what a later render sees. Randomness-by-specification (randomInt) and caller-supplied callbacks are outside.",
+  "note": "Sound relative to the VTA call graph (CHA in thorough), absence of reflection/unsafe writes (asserted each run), and library functions listed as allocating; one named exception (MsgNode.Placeholder's append) is justified in DESIGN.md.",
+  "technique": "static analysis: SSA provenance/effect analysis over the VTA call graph + typestate"},
+ {"id": "C09",
+  "text": "Partial. Decides the sufficient condition for race freedom among concurrent calls: no call writes memory another call can reach (C08's effect analysis over all concurrent entries; package-state writes only for parse/compile entries), the scanner goroutine and the parser share no lexer field but the channel, run closes the channel on every exit, and no goroutine is started on the render path. Schedules themselves are not explored.",
+  "note": "Same trusted base as C08; channel operations are taken as synchronising; Bundle.recompiler (WatchFiles) is documented upstream as not goroutine-safe and is outside the property.",
+  "technique": "static analysis: SSA effect analysis + field-access partition across the goroutine boundary"},
 ]
 PENDING = "check under construction in this round (see DESIGN.md); not claimed until its rules are armed and validated"
 NOT_APPLICABLE = [(p, PENDING) for p in
-  ["C01","C02","C03","C04","C06","C07","C08","C09","C10","C11","C12","C13","C14","C15","C17","C18","C19","C20"]] + [
+  ["C01","C03","C04","C06","C07","C10","C11","C12","C13","C14","C15","C17","C18","C19","C20"]] + [
  ("C16", "every clause is a decode(encode(x))=x / length / UTF-8 statement over all strings and integers; no structural necessary condition exists beyond those decided under C03/C04/C06"),
 ]
